@@ -1,26 +1,64 @@
 import ctypes
+import math
 from .cell import CellType
 
 
 def format_number(n, n_type):
     'Convert the given number to a string, the way QB used to do.'
-    if n_type == CellType.SINGLE:
-        n = ctypes.c_float(n).value
-        sn = str(n)
-        if '.' in sn and 'e' not in sn:
-            digits = len(sn) - 1
-            before_decimal = sn.index('.')
-            desired_total_digits = 7
-            n = round(n, ndigits=desired_total_digits-before_decimal)
-    s = str(n)
-    if s.endswith('.0'):
-        s = s[:-2]
-    if 'e' in s and n_type == CellType.DOUBLE:
-        s = s.replace('e', 'D')
-    elif 'e' in s:
-        s = s.replace('e', 'E')
+    if n_type in (CellType.SINGLE, CellType.DOUBLE) and math.isfinite(n):
+        s = _format_float(abs(n), n_type)
+        if n < 0:
+            s = '-' + s
+    else:
+        s = str(n)
 
-    if n >= 0:
+    if not s.startswith('-'):
         s = ' ' + s
 
+    return s
+
+
+def _format_float(n, n_type):
+    '''Text of a non-negative finite SINGLE or DOUBLE: the fewest
+    significant digits (at most 7 for SINGLE and 17 for DOUBLE),
+    correctly rounded, that read back as the same value; or the
+    maximum number of digits if no shorter text does.'''
+    if n_type == CellType.SINGLE:
+        max_digits = 7
+        n = ctypes.c_float(n).value
+
+        def same(text):
+            return ctypes.c_float(float(text)).value == n
+    else:
+        max_digits = 17
+
+        def same(text):
+            return float(text) == n
+
+    for ndigits in range(1, max_digits + 1):
+        s = '%.*e' % (ndigits - 1, n)
+        if same(s):
+            break
+
+    mantissa, exponent = s.split('e')
+    exponent = int(exponent)
+    digits = mantissa.replace('.', '').rstrip('0')
+    if not digits:
+        return '0'
+
+    if -4 <= exponent < 16:
+        # plain notation
+        if exponent < 0:
+            return '0.' + '0' * (-exponent - 1) + digits
+        digits = digits.ljust(exponent + 1, '0')
+        s = digits[:exponent + 1]
+        if digits[exponent + 1:]:
+            s += '.' + digits[exponent + 1:]
+        return s
+
+    s = digits[0]
+    if digits[1:]:
+        s += '.' + digits[1:]
+    s += 'E' if n_type == CellType.SINGLE else 'D'
+    s += '%+03d' % exponent
     return s
